@@ -26,6 +26,18 @@ LEVEL = "proof"
 
 def run(ctx):
     proof_ok, proof = common.proof_status(ctx, "C02")
+    # second property file of C02: RowNeighbourhood (coq/Properties_C02_neigh.v)
+    n_ok, n_proof = common.proof_status(ctx, "C02_neigh")
+    proof_ok = proof_ok and n_ok
+    for k in ("obligations", "discharged"):
+        proof[k] = proof.get(k, 0) + n_proof.get(k, 0)
+    for k in ("theorems", "axioms_used", "forbidden_vernacular_hits", "coq_files_in_scope", "problems"):
+        if n_proof.get(k):
+            proof[k] = sorted(set(list(proof.get(k, [])) + list(n_proof[k]))) if k != "theorems" else list(proof.get(k, [])) + list(n_proof[k])
+    if "coqchk" in n_proof:
+        proof["coqchk_neigh"] = n_proof["coqchk"]
+    if not n_ok and "coq_log_tail" in n_proof:
+        proof["coq_log_tail_neigh"] = n_proof["coq_log_tail"]
     s = ctx.seed
     harness = common.build_harness("dplace")
     driver = common.build_driver()
@@ -126,7 +138,10 @@ def run(ctx):
                               {"broken": thm, "first_difference": {"case": lp[key][0][0], "record": lp[key][0][1][:3000], "detail": lp[key][0][2]}}, found_input=False)
         if not proof_ok:
             ctx.violation("proof obligations of Properties_C02.v do not check", {"broken": "Properties_C02.v", "detail": proof}, found_input=False)
+    from checks import c02_neigh
+    cov_n, _ = c02_neigh.run_neigh(ctx, 2000 if ctx.quick else 200000, ctx.seed)
     cov = dict(proof)
+    cov.update(cov_n)
     cov.update({"trusted_base": common.TRUSTED_BASE + ["the five index arrays of DetailedPlacement: modelled (MovesConcrete.v), proved to refine the per-row lists, and compared array by array (tag DC); the lists are compared through rowCells()",
                                                         "lemon NetworkSimplex (shift pass) is not modelled: legality after a shift pass follows (proved) from dual feasibility of its potentials, which is re-checked per call "
                                                         "(needs the hook coloquinte_verif_shift_hook in /repo), and the positions written are re-checked with the proved guard shift_ok"],
